@@ -44,12 +44,6 @@ section
 variable {Opts Factory : Type} [BEq Opts] [Hashable Opts] [LawfulBEq Opts]
 variable (T : Code → Opts → Nat → Option Factory) (P : List (Request Opts))
 
-/-- Distinct code objects of the history have distinct values (no two live code objects compare
-equal without being identical). -/
-def ValInj : Prop := ∀ r ∈ P, ∀ r' ∈ P, r.code.val = r'.code.val → r.code = r'.code
-
-instance : Decidable (ValInj P) := by unfold ValInj; infer_instance
-
 def codes : List Code := P.map (fun r => r.code)
 
 /-- Facts a thread at `pc` (executing request `r`) may rely on. -/
